@@ -128,7 +128,8 @@ impl TreeBuilderSimulator {
         tag_name: LocalNameHash,
     ) -> Result<TreeBuilderFeedback, ParsingAmbiguityError> {
         if self.strict {
-            self.ambiguity_guard.track_start_tag(tag_name)?;
+            self.ambiguity_guard
+                .track_start_tag(tag_name, self.current_ns == Namespace::Html)?;
         }
 
         Ok(if tag_name == Tag::Svg {
